@@ -2,6 +2,7 @@ SPECIFICATION Spec
 CONSTANTS
   Alphabet = {"Q1","Q2","L","X2","X3","X4","LF","BAD","FF","TAB"}
   MaxLen = 6
+  Prefix = "none"
   Emit = TRUE
 INVARIANTS TypeOK NoTie Tiling LineColDecl Total CodecRoundTrip SemTokOrdered EmitReplay
 CHECK_DEADLOCK FALSE
